@@ -4,6 +4,7 @@ import (
 	"bytes"
 	"go/types"
 	"io"
+	"strconv"
 	"strings"
 
 	"golang.org/x/net/html"
@@ -36,13 +37,13 @@ func readerOf(v value) io.Reader {
 
 func init() {
 	intrinsics[apiPkg+".ServeHTML"] = func(fr *frame, a []value) value {
-		u := "http://127.0.0.1:9/zzpage" + string(rune('a'+len(servedBodies)))
+		u := "http://127.0.0.1:9/zzpage" + strconv.Itoa(len(servedBodies))
 		servedBodies[u] = conc(a[0])
 		// (url, close func)
 		return tuple{u, nativeFunc(func([]value) value { return nil })}
 	}
 	intrinsics[apiPkg+".TempFile"] = func(fr *frame, a []value) value {
-		p := "/zz/tmp/file" + string(rune('a'+len(servedBodies))) + ".html"
+		p := "/zz/tmp/file" + strconv.Itoa(len(servedBodies)) + ".html"
 		servedBodies[p] = conc(a[0])
 		return tuple{p, nativeFunc(func([]value) value { return nil })}
 	}
